@@ -9,6 +9,7 @@ import (
 	"github.com/orbs-network/lean-helix-go/services/randomseed"
 	"github.com/orbs-network/lean-helix-go/spec/types/go/primitives"
 	"github.com/orbs-network/lean-helix-go/spec/types/go/protocol"
+	env "github.com/orbs-network/lean-helix-go/zzverifenv"
 	stub "github.com/orbs-network/lean-helix-go/zzverifstub"
 )
 
@@ -128,6 +129,22 @@ func equalWeights(n int) []uint64 {
 		w[i] = 1
 	}
 	return w
+}
+
+// paramWeights: the committee weights of a run: equal weights unless the configuration sets "weights"
+// (1: [3,1,1,1]  2: [1,2,3,4]  3: [2,2,1,1]  4: [4,3,2,1]; f and Q differ: W=6,f=1,Q=5 / W=10,f=3,Q=7 / W=6,f=1,Q=5).
+func paramWeights() []uint64 {
+	switch env.ParamOr("weights", 0) {
+	case 1:
+		return []uint64{3, 1, 1, 1}
+	case 2:
+		return []uint64{1, 2, 3, 4}
+	case 3:
+		return []uint64{2, 2, 1, 1}
+	case 4:
+		return []uint64{4, 3, 2, 1}
+	}
+	return equalWeights(4)
 }
 
 // ---------------- honest peers ----------------
